@@ -22,4 +22,6 @@ if [ -z "$SKIP" ]; then
   for d in $DEMOS; do mv /tmp/seedtmp/$(echo $d | tr / _) "$d"; done
 fi
 echo "== checks"
+mkdir -p /tmp/seedtmp; mv seed /tmp/seedtmp/seed.$$ 2>/dev/null
 rm -rf /tmp/seedev/$(basename $WT); /verif/bin/dirkcheck -property all -repo "$WT" -out /tmp/seedev/$(basename $WT) -known /dev/null 2>&1 | grep -E "VIOLATED|UNDECIDED|quick:" 
+mv /tmp/seedtmp/seed.$$ seed 2>/dev/null
